@@ -24,7 +24,7 @@ impl FlattenedJson {
         // `Raw` accepts JSON that is nested more deeply than what can be deserialized to a
         // `JsonValue`. No condition can match on such an event.
         match to_json_value(raw) {
-            Ok(value) => s.flatten_value(value, "".into()),
+            Ok(value) => s.flatten_value(value, None),
             Err(error) => warn!("Failed to flatten JSON: {error}"),
         }
 
@@ -32,24 +32,32 @@ impl FlattenedJson {
     }
 
     /// Flatten and insert the `value` at `path`.
+    ///
+    /// The path of the root is `None`, which is not the same as the path of a property whose name is
+    /// the empty string.
     #[instrument(skip(self, value))]
-    fn flatten_value(&mut self, value: JsonValue, path: String) {
+    fn flatten_value(&mut self, value: JsonValue, path: Option<String>) {
         match value {
             JsonValue::Object(fields) => {
                 if fields.is_empty() {
+                    let path = path.unwrap_or_default();
                     if self.map.insert(path.clone(), FlattenedJsonValue::EmptyObject).is_some() {
                         warn!("Duplicate path in flattened JSON: {path}");
                     }
                 } else {
                     for (key, value) in fields {
                         let key = escape_key(&key);
-                        let path = if path.is_empty() { key } else { format!("{path}.{key}") };
-                        self.flatten_value(value, path);
+                        let path = match &path {
+                            Some(path) => format!("{path}.{key}"),
+                            None => key,
+                        };
+                        self.flatten_value(value, Some(path));
                     }
                 }
             }
             value => {
                 if let Some(v) = FlattenedJsonValue::from_json_value(value) {
+                    let path = path.unwrap_or_default();
                     if self.map.insert(path.clone(), v).is_some() {
                         warn!("Duplicate path in flattened JSON: {path}");
                     }
